@@ -35,6 +35,10 @@ def _interpose():
     import subprocess
     real = subprocess.Popen
     fail_layers = set(json.loads(os.environ.get('VERIF_SPAWN_FAIL', '[]')))
+    # which way the start fails (the operating system's reasons differ in
+    # exception class: BlockingIOError, FileNotFoundError, PermissionError ...)
+    import errno as _errno
+    fail_errno = getattr(_errno, os.environ.get('VERIF_SPAWN_ERRNO', 'ENOMEM'))
 
     class Popen(real):
         def __init__(self, args, *a, **kw):
@@ -44,7 +48,7 @@ def _interpose():
             self._verif_layer = layer
             if layer and (layer in fail_layers or '*' in fail_layers):
                 _emit('Spawn', l=layer, child=0, s='fail')
-                raise OSError(12, 'Cannot allocate memory (scripted)')
+                raise OSError(fail_errno, os.strerror(fail_errno) + ' (scripted)')
             try:
                 real.__init__(self, args, *a, **kw)
             except BaseException:
